@@ -44,7 +44,7 @@ def bad(node, why: str):
 COQ_KEYWORDS = {"at", "as", "end", "in", "match", "return", "with", "fix", "let", "using", "then", "else", "if", "fun", "forall", "exists",
                 "Type", "Set", "Prop", "where", "struct", "for", "cofix", "IF", "by", "do", "is", "of", "mod", "self_"}
 EXNS = {"KeyError", "IndexError", "AssertionError", "TypeError", "ValueError", "JellyConformanceError", "JellyAssertionError",
-        "JellyNotImplementedError", "StopIteration", "NotImplementedError"}
+        "JellyNotImplementedError", "StopIteration", "NotImplementedError", "ZeroDivisionError", "BaseException", "AttributeError"}
 
 
 ENUM_TYPES: dict[str, dict[str, int]] = {}  # filled from the descriptor in rdf_pb2.py by translate_unit
@@ -85,6 +85,10 @@ def coq_type(t) -> str:
         return f"(list {coq_type(t[1])})"
     if isinstance(t, tuple) and t[0] == "pb":
         return "(pbval K)"
+    if isinstance(t, tuple) and t[0] == "cls":
+        return f"{t[1]}_cls"
+    if isinstance(t, tuple) and t[0] == "ename":
+        return "Z"
     if t == "any":
         return "T"
     if isinstance(t, tuple) and t[0] == "iter":
@@ -129,10 +133,12 @@ def ann_type(a, classes) -> object:
             return ("seq", "int")
         if a.id == "object":
             return "any"
+        if a.id in ENUM_TYPES:
+            return "int"
         if a.id in INT_ENUMS:
             return "int"
         if a.id in classes:
-            return ("obj", a.id)
+            return ("obj", classes[a.id].name)
         if a.id in TYPE_ALIASES:
             return ann_type(TYPE_ALIASES[a.id], classes)
         bad(a, "annotation")
@@ -146,6 +152,9 @@ def ann_type(a, classes) -> object:
         return ann_type(TYPE_ALIASES[a.id], classes)
     if isinstance(a, ast.Subscript) and isinstance(a.value, ast.Name) and a.value.id in ("Sequence", "list"):
         return ("seq", ann_type(a.slice, classes))
+    if isinstance(a, ast.Subscript) and isinstance(a.value, ast.Name) and a.value.id == "type" and isinstance(a.slice, ast.Name) \
+            and a.slice.id in classes and getattr(classes[a.slice.id], "family", None) is not None:
+        return ("cls", classes[a.slice.id].name)
     if isinstance(a, ast.Subscript) and isinstance(a.value, ast.Name) and a.value.id in ("Iterator", "Iterable"):
         return ("iter", ann_type(a.slice, classes))
     if isinstance(a, ast.Subscript) and isinstance(a.value, ast.Name) and a.value.id == "set":
@@ -206,6 +215,7 @@ class Translator:
         self.classes: dict[str, ClassInfo] = {}
         self.functions: dict[str, tuple[list, object]] = {}
         self.int_sets: dict[str, list] = {}
+        self.dict_consts: dict[str, tuple[list[tuple[str, str]], object]] = {}  # module-level {int: class} tables
         self.str_consts: dict[str, str] = {}  # module-level string constants of pyjelly/options.py
         self.method_selection: dict[str, list[str]] = {}  # class -> the methods that belong to the unit
         self.virtual_methods: dict[str, list[str]] = {}  # class -> methods that subclasses override (parameters of the translation)
@@ -219,7 +229,8 @@ class Translator:
 
     # ------------------------------------------------------------------ classes
     def add_class(self, node: ast.ClassDef):
-        if any(isinstance(d, ast.Call) and isinstance(d.func, ast.Name) and d.func.id == "dataclass" for d in node.decorator_list) \
+        if any((isinstance(d, ast.Call) and isinstance(d.func, ast.Name) and d.func.id == "dataclass") or (isinstance(d, ast.Name) and d.id == "dataclass")
+               for d in node.decorator_list) \
                 and not any(isinstance(n, ast.FunctionDef) and n.name == "__init__" for n in node.body):
             return self.add_dataclass(node)
         info = ClassInfo(node.name)
@@ -251,7 +262,7 @@ class Translator:
                 # in/out parameters.  A helper that leaves self alone is translated without self; one that uses self
                 # may only take messages in/out (a message cannot be one of self's tables: no aliasing)
                 if any(isinstance(x, ast.Name) and x.id == "self" for x in ast.walk(ast.Module(body=m.body, type_ignores=[]))):
-                    if not all(t[0] == "pb" for _, t in params if is_mutable(t)):
+                    if not all(t[0] in ("pb", "iter") for _, t in params if is_mutable(t)):
                         bad(m, "a method that both uses self and changes a table or a collection passed to it")
                     info.inout.add(m.name)
                 else:
@@ -327,7 +338,12 @@ def _add_dataclass(self, node: ast.ClassDef):
                 d = n.value
                 if isinstance(d, ast.Name) and d.id in self.consts:
                     d = ast.Constant(value=self.consts[d.id])
-                if isinstance(d, ast.Constant) and (isinstance(d.value, (int, bool)) or d.value == ""):
+                if isinstance(d, ast.Call) and isinstance(d.func, ast.Name) and d.func.id == "field" and not d.args and len(d.keywords) == 1 \
+                        and d.keywords[0].arg == "default_factory" and isinstance(d.keywords[0].value, ast.Name):
+                    d = ast.Call(func=d.keywords[0].value, args=[], keywords=[])  # field(default_factory=C): C()
+                if isinstance(d, ast.Constant) and (isinstance(d.value, (int, bool)) or d.value == "" or d.value is None):
+                    info.defaults[n.target.id] = d
+                elif isinstance(d, ast.Call) or (isinstance(d, ast.Attribute) and isinstance(d.value, ast.Name) and d.value.id == "jelly"):
                     info.defaults[n.target.id] = d
             continue
         if isinstance(n, ast.FunctionDef):
@@ -405,6 +421,7 @@ class Mode:
     # ---- statements (continuation = the statements that follow)
     def stmts(self, ss: list, env: dict) -> str:
         if not ss:
+            self._fall_env = env  # the environment at the point where control falls off the end of the block
             return self.fall_off()
         s, rest = ss[0], ss[1:]
         if isinstance(s, ast.Expr) and isinstance(s.value, ast.Constant) and isinstance(s.value.value, str):
@@ -420,6 +437,28 @@ class Mode:
             x, xt = s.value.func.value.id, env[s.value.func.value.id]
             return self.expr(s.value.args[0], env, lambda v, t: (
                 f"let {mangle(x)} := {v} in\n{self.stmts(rest, env)}" if compat(t, xt) else bad(s, "CopyFrom of another message type")))
+        if (isinstance(s, ast.Expr) and isinstance(s.value, ast.Call) and isinstance(s.value.func, ast.Attribute) and s.value.func.attr in ("append", "extend")
+                and isinstance(s.value.func.value, ast.Attribute) and isinstance(s.value.func.value.value, ast.Name) and s.value.func.value.value.id == "self"
+                and len(s.value.args) == 1 and not s.value.keywords):
+            fld = s.value.func.value.attr
+            ft = self.info.ftype(fld)
+            fam = getattr(self.tr, "families", {}).get(ft[1]) if isinstance(ft, tuple) and ft[0] == "obj" else None
+            if fam is not None and fam.userlist:
+                root = ft[1]
+                dt = self.tr.classes[root].ftype("data")
+
+                def k_ul(v, t, meth=s.value.func.attr):
+                    cur = f"({root}_data {self.read_field(fld)})"
+                    if meth == "append":
+                        if not compat(t, dt[1]):
+                            bad(s, f"append of {t} to a list of {dt[1]}")
+                        new = f"({cur} ++ [{v}])"
+                    else:
+                        if not (isinstance(t, tuple) and t[0] == "seq" and compat(t[1], dt[1])):
+                            bad(s, f"extend by {t}")
+                        new = f"({cur} ++ {v})"
+                    return self.write_field(fld, f"(set_{root}_data {new} {self.read_field(fld)})", ft, lambda: self.stmts(rest, env))
+                return self.expr(s.value.args[0], env, k_ul)
         # <list>.append(x) / <set>.add(x) / <list|set>.clear() on a local name or on self.<field>
         if (isinstance(s, ast.Expr) and isinstance(s.value, ast.Call) and isinstance(s.value.func, ast.Attribute)
                 and s.value.func.attr in ("append", "add", "clear", "extend") and not s.value.keywords):
@@ -474,8 +513,13 @@ class Mode:
             if s.value is None:
                 return self.ret_val("tt", "none")
             return self.expr(s.value, env, lambda v, t: self.ret_val(v, t))
+        if isinstance(s, ast.Raise) and s.exc is None and s.cause is None:
+            if getattr(self, "cur_exc", None) is None:
+                bad(s, "bare raise outside an except clause")
+            return self.on_exn(self.cur_exc)
         if isinstance(s, ast.Raise):
-            if s.cause is not None or not (isinstance(s.exc, ast.Call) and isinstance(s.exc.func, ast.Name) and s.exc.func.id in EXNS):
+            if (s.cause is not None and not (isinstance(s.cause, ast.Constant) and s.cause.value is None)) \
+                    or not (isinstance(s.exc, ast.Call) and isinstance(s.exc.func, ast.Name) and s.exc.func.id in EXNS):
                 bad(s, "raise")
             for a in s.exc.args:
                 if not (isinstance(a, ast.Name) and env.get(a.id) == "errmsg") and not isinstance(a, (ast.Constant, ast.JoinedStr)):
@@ -527,14 +571,21 @@ class Mode:
             if not (isinstance(h.type, ast.Name) and h.type.id in EXNS) or h.name is not None:
                 bad(s, "except clause")
             hname = self.tr.gensym("handler")
-            hcode = self.handler_fun(h.body + rest, dict(env))
+            saved_exc = getattr(self, "cur_exc", None)
+            self.cur_exc = "exc__"  # what a bare `raise` in the handler re-raises
+            try:
+                hcode = self.handler_fun(h.body + rest, dict(env))
+            finally:
+                self.cur_exc = saved_exc
             outer = self.on_exn
             caught = h.type.id
 
             def inner(e, outer=outer):
+                if caught == "BaseException":
+                    return self.call_handler(hname, e)
                 if e in EXNS:  # statically known
-                    return self.call_handler(hname) if e == caught else outer(e)
-                return f"(if is_exn {e} {caught} then {self.call_handler(hname)} else {outer(e)})"
+                    return self.call_handler(hname, e) if e == caught else outer(e)
+                return f"(if is_exn {e} {caught} then {self.call_handler(hname, e)} else {outer(e)})"
 
             self.on_exn = inner
             try:
@@ -543,6 +594,8 @@ class Mode:
             finally:
                 self.on_exn = outer
             return f"let {hname} := {hcode} in\n{body}"
+        if isinstance(s, ast.AnnAssign) and s.value is None and isinstance(s.target, ast.Name):
+            return self.stmts(rest, env)  # `x: T` declares, binds nothing
         if isinstance(s, (ast.Assign, ast.AnnAssign)):
             if isinstance(s, ast.Assign):
                 if len(s.targets) != 1:
@@ -576,20 +629,40 @@ class Mode:
                     if t != "int":
                         bad(s, "enum Name of a non-int")
                     env2 = dict(env)
-                    env2[tgt.id] = "errmsg"
                     test = "(" + " || ".join(f"({v} =? {n})" for n in nums) + ")"
-                    return f"if {test} then\n{self.stmts(rest, env2)}\nelse {self.on_exn('ValueError')}"
+                    if only_message_use(tgt.id, rest):
+                        env2[tgt.id] = "errmsg"
+                        return f"if {test} then\n{self.stmts(rest, env2)}\nelse {self.on_exn('ValueError')}"
+                    # the name of a value of the enum, kept as that value (only getattr(jelly.<Enum>, name) reads it)
+                    env2[tgt.id] = ("ename", val.func.value.attr)
+                    return f"if {test} then\nlet {mangle(tgt.id)} := {v} in\n{self.stmts(rest, env2)}\nelse {self.on_exn('ValueError')}"
                 return self.expr(val.args[0], env, k_en)
             # message strings
             if isinstance(tgt, ast.Name) and isinstance(val, (ast.JoinedStr, ast.Constant)) and (isinstance(val, ast.JoinedStr) or isinstance(val.value, str)) \
                     and (isinstance(val, ast.JoinedStr) or only_message_use(tgt.id, rest)):
+                checks = []
                 if isinstance(val, ast.JoinedStr):
                     for part in val.values:
                         if isinstance(part, ast.FormattedValue) and not is_pure(part.value):
-                            bad(s, "effect inside an f-string")
+                            pv = part.value
+                            # {jelly.<Enum>.Name(x)}: a ValueError when x is not a value of the enum
+                            if (isinstance(pv, ast.Call) and isinstance(pv.func, ast.Attribute) and pv.func.attr == "Name" and len(pv.args) == 1 and not pv.keywords
+                                    and isinstance(pv.func.value, ast.Attribute) and ast.unparse(pv.func.value.value) == "jelly"
+                                    and pv.func.value.attr in ENUM_TYPES and is_pure(pv.args[0])):
+                                checks.append((pv.args[0], sorted(set(ENUM_TYPES[pv.func.value.attr].values()))))
+                            else:
+                                bad(s, "effect inside an f-string")
                 env2 = dict(env)
                 env2[tgt.id] = "errmsg"
-                return self.stmts(rest, env2)
+
+                def go_chk(cs):
+                    if not cs:
+                        return self.stmts(rest, env2)
+                    arg, nums = cs[0]
+                    return self.expr(arg, env, lambda v, t: (
+                        "if (" + " || ".join(f"({v} =? {n})" for n in nums) + f") then\n{go_chk(cs[1:])}\nelse {self.on_exn('ValueError')}"
+                        if t == "int" else bad(s, "enum Name of a non-int")))
+                return go_chk(checks)
             if isinstance(tgt, ast.Name):
                 def k(v, t, tgt=tgt):
                     env2 = dict(env)
@@ -698,7 +771,7 @@ class Mode:
             self.on_exn = outer
             self.fall_off = saved_fall
             try:
-                return self.stmts(rest, env)
+                return self.stmts(rest, getattr(self, "_fall_env", env))
             finally:
                 self.on_exn = inner
                 self.fall_off = fall
@@ -783,6 +856,9 @@ class Mode:
             return go_t(list(e.elts), [], [])
         if isinstance(e, ast.List) and not e.elts:
             return k("[]", ("seq", "?"))
+        if isinstance(e, ast.Name) and e.id not in env and e.id in getattr(tr, "class_tags", {}):
+            root, tag = tr.class_tags[e.id]
+            return k(tag, ("cls", root))
         if isinstance(e, ast.Name):
             if e.id in env:
                 if env[e.id] == "errmsg":
@@ -810,6 +886,15 @@ class Mode:
                 return self.expr(e.left.elts[0], env, lambda x, xt: self.expr(e.right, env, lambda n, nt: (
                     k(f"(tuple_repeat ({'None' if xt == 'none' else x} : {coq_type(('opt', 'str')) if xt == 'none' else coq_type(xt)}) {n})",
                       ("seq", ("opt", "str") if xt == "none" else xt)) if nt == "int" else bad(e, "repetition count"))))
+            if isinstance(e.op, ast.Mult) and isinstance(e.left, ast.List) and len(e.left.elts) == 1 and isinstance(e.left.elts[0], ast.Constant) \
+                    and e.left.elts[0].value is None:
+                # [None] * n: a list of n empty slots (of `object | None` values)
+                return self.expr(e.right, env, lambda n, nt: (
+                    k(f"(tuple_repeat (None : option T) {n})", ("seq", ("opt", "any"))) if nt == "int" else bad(e, "repetition count")))
+            if isinstance(e.op, ast.Mod):
+                # Python's % has the sign of the divisor, like Z.modulo
+                return self.expr(e.left, env, lambda a, at: self.expr(e.right, env, lambda b, bt: (
+                    f"(if {b} =? 0 then {self.on_exn('ZeroDivisionError')} else\n{k(f'({a} mod {b})', 'int')})" if (at, bt) == ("int", "int") else bad(e, "% on non-ints"))))
             if isinstance(e.op, (ast.Add, ast.Sub)):
                 op = "+" if isinstance(e.op, ast.Add) else "-"
                 return self.expr(e.left, env, lambda a, at: self.expr(e.right, env, lambda b, bt: (
@@ -831,6 +916,8 @@ class Mode:
                 def second(b, bt):
                     if (at, bt) == ("int", "int"):
                         return k(f"(if {a} =? 0 then {b if is_or else a} else {a if is_or else b})", "int")
+                    if at == ("opt", "int") and bt == "int" and is_or:
+                        return k(f"(match {a} with Some x_ => if x_ =? 0 then {b} else x_ | None => {b} end)", "int")
                     if (at, bt) == ("bool", "bool"):
                         return k(f"({a} {'||' if is_or else '&&'} {b})", "bool")
                     bad(e, f"and/or on {at}, {bt}")
@@ -913,6 +1000,12 @@ class Mode:
                     bad(e, f"comparison of {at} and {bt}")
                 return self.expr(r, env, k_r)
             return self.expr(l, env, k_l)
+        if isinstance(e, ast.Subscript) and isinstance(e.value, ast.Name) and e.value.id in tr.dict_consts:
+            entries, vt = tr.dict_consts[e.value.id]
+            ex = tr.gensym("e")
+            return self.expr(e.slice, env, lambda i, it: (
+                "match (" + "".join(f"if {i} =? {kk} then Some {vv} else " for kk, vv in entries) + "None) with\n"
+                f"| None => {self.on_exn('KeyError')}\n| Some {ex} =>\n{k(ex, vt)}\nend" if it == "int" else bad(e, "dictionary key type")))
         if isinstance(e, ast.Subscript):
             def k_obj(o, ot):
                 def k_i(i, it):
@@ -1059,6 +1152,9 @@ class Mode:
                     return k(out, "int")
                 return self.expr(rest[0], env, lambda v, t: go(rest[1:], acc + [v]) if t == "int" else bad(e, f"{f.id} of non-ints"))
             return go(e.args, [])
+        if isinstance(f, ast.Name) and f.id == "len" and len(e.args) == 1 and not e.keywords and isinstance(e.args[0], ast.Name) \
+                and e.args[0].id in INT_ENUMS and e.args[0].id not in env:
+            return k(f"({len(INT_ENUMS[e.args[0].id])})", "int")
         # len(..)
         if isinstance(f, ast.Name) and f.id == "len" and len(e.args) == 1 and not e.keywords:
             def k_len(v, t):
@@ -1068,7 +1164,26 @@ class Mode:
                     return k(f"(seq_len {v})", "int")
                 bad(e, "len of this type")
             return self.expr(e.args[0], env, k_len)
+        # constructors of a class of a family (keyword arguments; None for the optional ones left out)
+        if isinstance(f, ast.Name) and f.id in getattr(tr, "ctor_params", {}) and not e.args:
+            params = tr.ctor_params[f.id]
+            root = tr.class_tags[f.id][0]
+            given = {kw.arg: kw.value for kw in e.keywords}
+            if not set(given) <= {p for p, _, _ in params} or any(p not in given and not has_d for p, _, has_d in params):
+                bad(e, "constructor arguments")
+            call = ast.Call(func=f, args=[], keywords=[ast.keyword(arg=p, value=given.get(p, ast.Constant(value=None))) for p, _, _ in params])
+            return self.args(call, [(p, pt) for p, pt, _ in params], env, lambda a: (
+                f"match {f.id}___init__ {' '.join(a)} with\n| Exn {ex} => {self.on_exn(ex)}\n| Val {o} =>\n{k(o, ('obj', root))}\nend"))
         # constructors
+        if isinstance(f, ast.Name) and f.id in tr.classes and tr.classes[f.id].defaults and not e.args:
+            cls = tr.classes[f.id]
+            params, _ = cls.methods["__init__"]
+            given = {kw.arg for kw in e.keywords}
+            if not given <= {p for p, _ in params} or any(p not in given and p not in cls.defaults for p, _ in params):
+                bad(e, "constructor arguments")
+            filled = ast.Call(func=f, args=[], keywords=list(e.keywords) + [ast.keyword(arg=p, value=cls.defaults[p]) for p, _ in params if p not in given])
+            return self.args(filled, params, env, lambda a: (
+                f"match {cls.name}___init__ {' '.join(a)} with\n| Exn {ex} => {self.on_exn(ex)}\n| Val {o} =>\n{k(o, ('obj', cls.name))}\nend"))
         if isinstance(f, ast.Name) and f.id in tr.classes:
             params, _ = tr.classes[f.id].methods["__init__"]
             return self.args(e, params, env, lambda a: (
@@ -1080,6 +1195,44 @@ class Mode:
             return self.expr(e.args[0], env, lambda it, itt: self.expr(e.keywords[0].value, env, lambda n, nt: (
                 f"match deque_make {it} {n} with\n| Exn {ex} => {self.on_exn(ex)}\n| Val {x} =>\n{k(x, itt)}\nend"
                 if nt == "int" and isinstance(itt, tuple) and itt[0] == "seq" else bad(e, "deque arguments"))))
+        # issubclass(c, B) for a class value c of a family
+        if isinstance(f, ast.Name) and f.id == "issubclass" and len(e.args) == 2 and not e.keywords and isinstance(e.args[1], ast.Name) \
+                and e.args[1].id in getattr(tr, "class_tags", {}):
+            root, _ = tr.class_tags[e.args[1].id]
+            fam = tr.families[root]
+            subs = fam.subclasses(e.args[1].id)
+            return self.expr(e.args[0], env, lambda c, ct: (
+                k("(" + " || ".join(f"{root}_cls_eqb {c} {fam.tag(x)}" for x in subs) + ")", "bool") if ct == ("cls", root) else bad(e, "issubclass of a non-class")))
+        # c(kw=..) for a class value c of a family: the constructor of whichever class c is
+        if isinstance(f, ast.Name) and isinstance(env.get(f.id), tuple) and env[f.id][0] == "cls" and not e.args:
+            root = env[f.id][1]
+            fam = tr.families[root]
+            cv = mangle(f.id)
+            given = {kw.arg: kw.value for kw in e.keywords}
+            ex, o = tr.gensym("e"), tr.gensym("o")
+
+            def branch(c):
+                params = tr.ctor_params[c]
+                owner, d = fam.resolve(c, "__init__")
+                names = {p for p, _, _ in params}
+                if not set(given) <= names and not d.args.kwarg:
+                    return None  # TypeError: unexpected keyword
+                kws = [ast.keyword(arg=p, value=given.get(p, ast.Constant(value=None))) for p, pt, has_d in params
+                       if p in given or has_d]
+                if len(kws) != len(params):
+                    return None  # TypeError: missing argument
+                call = ast.Call(func=ast.Name(id=c, ctx=ast.Load()), args=[], keywords=kws)
+                return self.args(call, [(p, pt) for p, pt, _ in params], env, lambda a: f"{c}___init__ {' '.join(a)}")
+            arms = []
+            for c in fam.order:
+                b = branch(c)
+                arms.append(f"| {fam.tag(c)} => {b if b is not None else 'Exn TypeError'}")
+            return (f"match (match {cv} with\n" + "\n".join(arms) + f"\nend) with\n| Exn {ex} => {self.on_exn(ex)}\n| Val {o} =>\n{k(o, ('obj', root))}\nend")
+        # getattr(jelly.<Enum>, name) where name came from jelly.<Enum>.Name(v): v again
+        if isinstance(f, ast.Name) and f.id == "getattr" and len(e.args) == 2 and not e.keywords and isinstance(e.args[1], ast.Name) \
+                and isinstance(env.get(e.args[1].id), tuple) and env[e.args[1].id][0] == "ename" \
+                and ast.unparse(e.args[0]) == "jelly." + env[e.args[1].id][1]:
+            return k(mangle(e.args[1].id), "int")
         # iter(x): an iterable we model as the list of its items is its own iterator
         if isinstance(f, ast.Name) and f.id == "iter" and len(e.args) == 1 and not e.keywords:
             return self.expr(e.args[0], env, lambda v, t: k(v, t) if isinstance(t, tuple) and t[0] == "iter" else bad(e, "iter of this type"))
@@ -1105,6 +1258,8 @@ class Mode:
 
                 def k_v(v, t):
                     w = {"int": "PInt", "bool": "PBool", "str": "PStr"}.get(t)
+                    if isinstance(t, tuple) and t[0] == "seq" and fields[kw.arg]["label"] == 3:
+                        w = "PRep"
                     if w is None and not (isinstance(t, tuple) and t[0] == "pb"):
                         bad(e, f"message field of type {t}")
                     return go_m(rest[1:], acc + [f'("{kw.arg}"%string, {f"{w} {v}" if w else v})'])
@@ -1203,12 +1358,11 @@ class MethodMode(Mode):
         return f"let self := set_{self.info.name}_{f} {self.coerce(v, t, want, None)} self in\n{rest()}"
 
     def handler_fun(self, ss, env):
-        if self.muts:
-            bad(None, "try inside a method with in/out parameters")
-        return f"(fun self : {self.info.name} =>\n{self.stmts(ss, env)})"
+        ps = "".join(f" ({mangle(p)} : {coq_type(t)})" for p, t in self.muts)
+        return f"(fun (exc__ : exn) (self : {self.info.name}){ps} =>\n{self.stmts(ss, env)})"
 
-    def call_handler(self, h):
-        return f"{h} self"
+    def call_handler(self, h, e):
+        return f"{h} {e} self" + "".join(f" {mangle(p)}" for p, _ in self.muts)
 
     def call_self(self, m, a, ret, r, ex, x, k):
         return (f"let '({r}, self) := {self.info.name}_{m} {' '.join(a)} self in\nmatch {r} with\n| Exn {ex} => {self.on_exn(ex)}\n"
@@ -1246,10 +1400,11 @@ class FuncMode(Mode):
         bad(None, "self outside a class")
 
     def handler_fun(self, ss, env):
-        return f"(fun _ : unit =>\n{self.stmts(ss, env)})"
+        ps = "".join(f" ({mangle(p)} : {coq_type(t)})" for p, t in self.muts)
+        return f"(fun (exc__ : exn){ps} =>\n{self.stmts(ss, env)})"
 
-    def call_handler(self, h):
-        return f"{h} tt"
+    def call_handler(self, h, e):
+        return f"{h} {e}" + "".join(f" {mangle(p)}" for p, _ in self.muts)
 
     def call_self(self, *a):
         bad(None, "self outside a class")
@@ -1318,6 +1473,14 @@ UNITS = {
     "hint": {"src": "pyjelly/parse/ioutils.py", "items": ["delimited_jelly_hint"], "ctx": False, "uses": [], "gen": "HintGen"},
     "options": {"src": "pyjelly/options.py", "ctx": True, "uses": [], "gen": "OptionsGen",
                 "items": ["TRIPLES_ONLY_LOGICAL_TYPES", "validate_type_compatibility", "LookupPreset", "StreamTypes", "StreamParameters"]},
+    "flows": {"src": "pyjelly/serialize/flows.py", "ctx": True, "uses": [], "gen": "FlowsGen",
+              "items": [{"family": "FrameFlow", "userlist": True,
+                         "classes": ["FrameFlow", "ManualFrameFlow", "BoundedFrameFlow", "FlatTriplesFrameFlow", "FlatQuadsFrameFlow",
+                                     "GraphsFrameFlow", "DatasetsFrameFlow"]},
+                        "FLOW_DISPATCH", "flow_for_type"]},
+    "streams": {"src": "pyjelly/serialize/streams.py", "ctx": True, "uses": ["lookup_enc", "options", "encode", "flows"], "gen": "StreamsGen",
+                "items": ["SerializerOptions",
+                          {"family": "Stream", "classes": ["Stream", "TripleStream", "QuadStream", "GraphStream"], "skip": ["graph"]}]},
     "encode": {"src": "pyjelly/serialize/encode.py", "ctx": True, "uses": ["lookup_enc", "options"], "gen": "EncodeGen",
                "items": ["split_iri", ("TermEncoder", ["__init__", "start_statement", "_entry_index", "encode_iri_indices", "encode_iri",
                                                        "encode_default_graph", "encode_literal"], ["encode_spo", "encode_graph"]),
@@ -1335,26 +1498,63 @@ def item_name(n):
     return None
 
 
-def s_dependence(out: list[str], uses: set[str]) -> tuple[set[str], list[str]]:
-    """Which definitions depend on the string structure S (they take it as their first argument once the
-    section is closed; for record projections and constructors it is made implicit)."""
-    uses = set(uses)
+def ctx_analysis(out: list[str], imported: dict[str, list[str]], any_ctx: bool, inherited: list[tuple[str, str]] = ()) -> tuple[dict[str, list[str]], list[str], list[tuple[str, str]]]:
+    """Which section variables each definition depends on -- they become its leading arguments, in declaration
+    order, once the section is closed (S first; T is implicit; then any_eqb and the virtual methods).
+    Returns (dependencies of every definition, record constructors / projections for which S is made implicit,
+    the extra context declarations of this unit)."""
+    order = ["S"] + (["T", "any_eqb"] if any_ctx else [])
+    var_deps: dict[str, set[str]] = {"S": {"S"}, "T": {"T"}, "any_eqb": {"T", "any_eqb"}}
+    decls: list[tuple[str, str]] = [("T", "Context {T : Type} (any_eqb : T -> T -> bool).")] if any_ctx else []
+    deps: dict[str, set[str]] = {}
     implicit: list[str] = []
+    for v, decl in inherited:  # virtual methods declared by the units this one builds on: section variables here too
+        if v == "T":
+            continue
+        order.append(v)
+        var_deps[v] = {"S", "T"}
+        decls.append((v, decl))
+
+    def scan(body: str) -> set[str]:
+        d: set[str] = set()
+        if CTX_TOKENS.search(body):
+            d.add("S")
+        if re.search(r"\bT\b", body):
+            d.add("T")
+        for v in order:
+            if v not in ("S", "T") and re.search(r"\b" + re.escape(v) + r"\b", body):
+                d |= var_deps[v] | {v}
+        for n, dn in imported.items():
+            if re.search(r"(?<![\w.])" + re.escape(n) + r"\b", body):
+                d |= set(dn)
+        for n, dn in deps.items():
+            if re.search(r"(?<![\w.])" + re.escape(n) + r"\b", body):
+                d |= dn
+        return d
+
     for item in out:
-        m = re.match(r"(Record|Definition) (\w+)", item)
+        mc = re.match(r"Context \((\w+) : (.*)\)\.$", item, flags=re.S)
+        if mc:
+            v = mc.group(1)
+            var_deps[v] = scan(mc.group(2))
+            order.append(v)
+            decls.append((v, item))
+            continue
+        m = re.match(r"(Record|Definition|Inductive) (\w+)", item)
         if not m:
             continue
-        body = item[m.end():]
-        dep = bool(CTX_TOKENS.search(body)) or any(re.search(r"\b" + re.escape(u) + r"\b", body) for u in uses)
-        if not dep:
+        d = scan(item[m.end():])
+        if not d:
             continue
-        uses.add(m.group(2))
+        deps[m.group(2)] = d
         if m.group(1) == "Record":
             mk = re.search(r":= (\w+) \{", item).group(1)
             projs = re.findall(r"[{;] (\w+) :", item)
-            uses.update([mk] + projs)
+            for x in [mk] + projs:
+                deps[x] = d
             implicit += [mk] + projs
-    return uses, implicit
+    ordered = {n: [v for v in order if v in d] for n, d in deps.items()}
+    return ordered, implicit, decls
 
 
 def run_unit(repo: Path, unit: str) -> tuple["Translator", set[str], list[str]]:
@@ -1374,24 +1574,46 @@ def run_unit(repo: Path, unit: str) -> tuple["Translator", set[str], list[str]]:
         if isinstance(n, ast.Assign) and len(n.targets) == 1 and isinstance(n.targets[0], ast.Name) and isinstance(n.value, ast.Constant) \
                 and isinstance(n.value.value, str) and n.value.value.isascii():
             tr.str_consts[n.targets[0].id] = n.value.value
-    imported_uses: set[str] = set()
-    tr.abbrev: list[str] = []
+    imported: dict[str, list[str]] = {}
+    tr.abbrev_s: list[str] = []      # imported definitions that depend on S only
+    tr.abbrev_more: list[str] = []   # ... on further section variables (declared in between)
+    tr.import_decls: list[tuple[str, str]] = []
     for dep in u["uses"]:
-        dtr, duses, dimpl = run_unit(repo, dep)
+        dtr, dinfo = run_unit(repo, dep)
         tr.classes.update(dtr.classes)
         tr.functions.update(dtr.functions)
-        explicit = sorted(duses - set(dimpl))
-        tr.abbrev += [f"Notation {n} := ({UNITS[dep]['gen']}.{n} S)." for n in explicit]
-        imported_uses |= set(explicit)
+        for attr in ("families", "class_tags", "ctor_params"):
+            if hasattr(dtr, attr):
+                cur = getattr(tr, attr, {})
+                cur.update(getattr(dtr, attr))
+                setattr(tr, attr, cur)
+        tr.dict_consts.update(dtr.dict_consts)
+        for v, decl in dinfo["decls"]:
+            if v not in [x for x, _ in tr.import_decls]:
+                tr.import_decls.append((v, decl))
+        for n in sorted(dinfo["deps"]):
+            if n in dinfo["implicit"] and dinfo["deps"][n] == ["S"]:
+                continue  # S is implicit there
+            vs = dinfo["deps"][n]
+            explicit = [v for v in vs if v != "T"]
+            line = f"Notation {n} := ({UNITS[dep]['gen']}.{n} {' '.join(explicit)})."
+            (tr.abbrev_s if vs == ["S"] else tr.abbrev_more).append(line)
+            imported[n] = vs
+        if dtr.uses_any or any(v == "T" for v, _ in dinfo["decls"]):
+            tr.uses_any = tr.uses_any  # the importing unit declares T only if it needs it (see translate_unit)
     # re-establish this unit's globals (a dependency run overwrote them)
     TYPE_ALIASES.clear()
+    INT_ENUMS.clear()
     items = u["items"]
+    tr.consts.update(module_consts(f))
+    fam_specs = [i for i in (items or []) if isinstance(i, dict)]
+    fam_classes = {c: spec for spec in fam_specs for c in spec["classes"]}
+    items = None if items is None else [i for i in items if not isinstance(i, dict)] + [spec["classes"][0] for spec in fam_specs]
     names = None if items is None else [i if isinstance(i, str) else i[0] for i in items]
     for i in items or []:
         if not isinstance(i, str):
             tr.method_selection[i[0]] = i[1] + (i[2] if len(i) > 2 else [])
             tr.virtual_methods[i[0]] = i[2] if len(i) > 2 else []
-    INT_ENUMS.clear()
     for n in ast.parse(f.read_text()).body:
         if isinstance(n, ast.ClassDef) and [ast.unparse(b) for b in n.bases] == ["IntEnum"]:
             INT_ENUMS[n.name] = {st.targets[0].id: st.value.value for st in n.body
@@ -1407,6 +1629,17 @@ def run_unit(repo: Path, unit: str) -> tuple["Translator", set[str], list[str]]:
                     bad(n, "import alias")
                 if a.name in opts:
                     tr.consts[a.name] = opts[a.name]
+        if isinstance(n, ast.ImportFrom) and n.module and n.module.startswith("pyjelly.") and n.module != "pyjelly.options":
+            mp = repo / (n.module.replace(".", "/") + ".py")
+            if mp.exists():
+                mc = module_consts(mp)
+                for a in n.names:
+                    if a.name in mc and not a.asname:
+                        tr.consts[a.name] = mc[a.name]
+                for cn in ast.parse(mp.read_text()).body:
+                    if isinstance(cn, ast.ClassDef) and [ast.unparse(b) for b in cn.bases] == ["IntEnum"] and cn.name in [a.name for a in n.names]:
+                        INT_ENUMS[cn.name] = {st.targets[0].id: st.value.value for st in cn.body
+                                              if isinstance(st, ast.Assign) and isinstance(st.targets[0], ast.Name) and isinstance(st.value, ast.Constant)}
         if names is None:
             # the whole file is the unit: nothing but imports, docstrings and classes may be there
             if isinstance(n, ast.ImportFrom):
@@ -1437,6 +1670,32 @@ def run_unit(repo: Path, unit: str) -> tuple["Translator", set[str], list[str]]:
             ordered.append(n)
         chosen = ordered
     for n in chosen:
+        if isinstance(n, ast.ClassDef) and n.name in fam_classes:
+            import family
+
+            spec = fam_classes[n.name]
+            nodes = [x for x in mod.body if isinstance(x, ast.ClassDef) and x.name in spec["classes"]]
+            if [x.name for x in nodes] != spec["classes"]:
+                bad(n, f"{rel} no longer defines the classes {spec['classes']} in that order")
+            tr.out.append(f"(* ---- class family {spec['family']} ({rel}): {', '.join(spec['classes'])} *)")
+            family.add_family(tr, spec["family"], nodes, spec.get("userlist", False), rel, tuple(spec.get("skip", ())))
+            continue
+        if isinstance(n, (ast.Assign, ast.AnnAssign)) and isinstance(n.value, ast.Dict):
+            # {jelly constant: class of a family}
+            entries, vt = [], None
+            for kk, vv in zip(n.value.keys, n.value.values):
+                kc = None
+                if isinstance(kk, ast.Attribute) and isinstance(kk.value, ast.Name) and kk.value.id == "jelly":
+                    for vals in ENUM_TYPES.values():
+                        if kk.attr in vals:
+                            kc = vals[kk.attr]
+                if kc is None or not (isinstance(vv, ast.Name) and vv.id in getattr(tr, "class_tags", {})):
+                    bad(n, "dictionary constant")
+                root, tag = tr.class_tags[vv.id]
+                entries.append((str(kc), tag))
+                vt = ("cls", root)
+            tr.dict_consts[item_name(n)] = (entries, vt)
+            continue
         if isinstance(n, ast.ClassDef):
             if n.bases or n.keywords:
                 bad(n, "base classes")
@@ -1449,13 +1708,14 @@ def run_unit(repo: Path, unit: str) -> tuple["Translator", set[str], list[str]]:
             tr.int_sets[item_name(n)] = list(n.value.elts)
         else:
             bad(n, "module-level item")
-    uses, implicit = s_dependence(tr.out, imported_uses) if u["ctx"] else (set(), [])
-    return tr, uses - imported_uses, implicit
+    any_ctx = bool(u["ctx"]) and (tr.uses_any or any(re.search(r"\bT\b", o) for o in tr.out) or any(v == "T" for v, _ in tr.import_decls))
+    deps, implicit, decls = ctx_analysis(tr.out, imported, any_ctx, tr.import_decls) if u["ctx"] else ({}, [], [])
+    return tr, {"deps": deps, "implicit": implicit, "decls": decls, "any": any_ctx}
 
 
 def translate_unit(repo: Path, unit: str) -> str:
     u = UNITS[unit]
-    tr, uses, implicit = run_unit(repo, unit)
+    tr, info = run_unit(repo, unit)
     head = [
         f"(* GENERATED by /verif/translate/py2v.py from {u['src']} -- do not edit. *)",
         "From PJ.Tie Require Import PyPrims.",
@@ -1465,10 +1725,19 @@ def translate_unit(repo: Path, unit: str) -> str:
     head += ["Local Open Scope Z_scope.", "Local Open Scope bool_scope."]
     if not u["ctx"]:
         return "\n".join(head + tr.out) + "\n"
-    ctx_any = ["Context {T : Type} (any_eqb : T -> T -> bool)."] if tr.uses_any or any(re.search(r"\bT\b", o) for o in tr.out) else []
-    tail = ["End Gen."] + [f"Arguments {n} {{S}}." for n in implicit]
-    tail.append("(* definitions that take the string structure S as their first argument: " + " ".join(sorted(uses - set(implicit))) + " *)")
-    return "\n".join(head + ["Section Gen.", CTX_STR] + ctx_any + tr.abbrev + tr.out + tail) + "\n"
+    own_virtual = {m.group(1) for o in tr.out for m in [re.match(r"Context \((\w+) :", o)] if m}
+    # section variables: S; T and any_eqb when `object`-typed values occur; the virtual methods of the units this one
+    # builds on (their own are declared where their class is)
+    ctx_any = ["Context {T : Type} (any_eqb : T -> T -> bool)."] if info["any"] else []
+    inherited = [decl for v, decl in tr.import_decls if v != "T" and v not in own_virtual]
+    implicit = info["implicit"]
+    tail = ["End Gen."] + [f"Arguments {n} {{S}}." for n in implicit if info["deps"].get(n) == ["S"]]
+    explicit_s = sorted(n for n, vs in info["deps"].items() if n not in implicit and vs == ["S"])
+    tail.append("(* definitions that take the string structure S as their first argument: " + " ".join(explicit_s) + " *)")
+    more = sorted((n, vs) for n, vs in info["deps"].items() if n not in implicit and vs != ["S"])
+    if more:
+        tail.append("(* definitions with further leading arguments: " + "; ".join(f"{n} [{' '.join(v for v in vs if v != 'T')}]" for n, vs in more) + " *)")
+    return "\n".join(head + ["Section Gen.", CTX_STR] + ctx_any + tr.abbrev_s + inherited + tr.abbrev_more + tr.out + tail) + "\n"
 
 
 def main() -> int:
@@ -1488,4 +1757,6 @@ def main() -> int:
 
 
 if __name__ == "__main__":
-    sys.exit(main())
+    import py2v  # one module instance (family.py imports this file by name)
+
+    sys.exit(py2v.main())
